@@ -979,8 +979,35 @@ impl Policy for C19Policy {
                     if let Action::Short(_) = a {
                         a = Action::Short(1 + tape.below("shortlen", op.len as u64 - 1) as usize);
                     }
+                    let mut label = name.to_string();
+                    // every hard failure of a call is, one time in three, replaced by an errno
+                    // from a wide list: code that special-cases one error kind (EBUSY of a
+                    // mount point, ETXTBSY, EROFS ...) must not get away with it
+                    if let Action::Fail(e) = a {
+                        if e != libc::EINTR && e != libc::EEXIST && tape.chance("wide", 1, 3) {
+                            const WIDE: [(i32, &str); 14] = [
+                                (libc::EBUSY, "EBUSY"),
+                                (libc::ETXTBSY, "ETXTBSY"),
+                                (libc::EROFS, "EROFS"),
+                                (libc::EDQUOT, "EDQUOT"),
+                                (libc::ENOMEM, "ENOMEM"),
+                                (libc::ENFILE, "ENFILE"),
+                                (libc::ELOOP, "ELOOP"),
+                                (libc::ENAMETOOLONG, "ENAMETOOLONG"),
+                                (libc::ENOTDIR, "ENOTDIR"),
+                                (libc::EMLINK, "EMLINK"),
+                                (libc::EFBIG, "EFBIG"),
+                                (libc::ENOTEMPTY, "ENOTEMPTY"),
+                                (libc::ENOENT, "ENOENT"),
+                                (libc::EOPNOTSUPP, "EOPNOTSUPP"),
+                            ];
+                            let w = WIDE[tape.below("wideerrno", WIDE.len() as u64) as usize];
+                            a = Action::Fail(w.0);
+                            label = format!("{:?}_{}", op.kind, w.1);
+                        }
+                    }
                     action = a;
-                    self.probes.fault(name);
+                    self.probes.fault(&label);
                 }
             }
             if action != Action::Proceed {
